@@ -152,6 +152,34 @@ func c12Obj(c c12Case) interface{} {
 	return nil
 }
 
+// Payloads handed out earlier must stay what they were while later values are encoded (a caller
+// keeps them: BinEntry.Value is queued and sent later). The last 48 results are held, each with a
+// private copy, and compared when they leave the window and at the end.
+type c12HeldT struct {
+	p, cp []byte
+	desc  string
+	c     c12Case
+}
+
+var c12Held []c12HeldT
+
+func c12Hold(p []byte, desc string, c c12Case) {
+	c12Held = append(c12Held, c12HeldT{p, append([]byte{}, p...), desc, c})
+	if len(c12Held) > 48 {
+		c12CheckHeld(1)
+	}
+}
+
+func c12CheckHeld(n int) {
+	for ; n > 0 && len(c12Held) > 0; n-- {
+		h := c12Held[0]
+		c12Held = c12Held[1:]
+		if !bytes.Equal(h.p, h.cp) {
+			ev.Violate("C12|result-overwritten", fmt.Sprintf("the payload returned for %s was changed by later calls (the returned slice aliases reused storage)", h.desc), h.c)
+		}
+	}
+}
+
 func c12RoundTrip(c c12Case) {
 	obj := c12Obj(c)
 	p, err := EncodeDump(obj)
@@ -159,6 +187,7 @@ func c12RoundTrip(c c12Case) {
 		ev.Violate("C12|encode-error|"+c.Kind, fmt.Sprintf("EncodeDump(%s) fails: %v", c12Show(obj), err), c)
 		return
 	}
+	c12Hold(p, "EncodeDump("+c12Show(obj)+")", c)
 	back, err := DecodeDump(p)
 	if err != nil {
 		ev.Violate("C12|decode-error|"+c.Kind, fmt.Sprintf("DecodeDump(EncodeDump(%s)) fails: %v", c12Show(obj), err), c)
@@ -267,6 +296,7 @@ func c12Compact(i int, vals []*rdbgen.Value) {
 		ev.Violate("C12|binentry|"+v.Name, fmt.Sprintf("ObjEntry.BinEntry of %s: %v", v.Name, err), c)
 		return
 	}
+	c12Hold(be.Value, "ObjEntry.BinEntry of "+v.Name, c)
 	o2, err := DecodeDump(be.Value)
 	if err != nil || !c12Same(o2, o) {
 		ev.Violate("C12|binentry-roundtrip|"+v.Name, fmt.Sprintf("ObjEntry.BinEntry of %s re-decodes differently (%v)", v.Name, err), c)
@@ -339,6 +369,7 @@ func c12File(recs []c12Rec) {
 
 func TestVerif_C12(t *testing.T) {
 	defer ev.Flush("C12")
+	defer func() { c12CheckHeld(1 << 30) }()
 	log.SetLevel(log.LEVEL_NONE)
 	var vals []*rdbgen.Value
 	for _, v := range rdbcat.Values(1) {
